@@ -22,7 +22,7 @@ def garbage? : String → Option Garbage
   | _ => none
 
 /-- `plain` | `garbage:<kind>:<slots>:<fuel>` | `garbagenog:<kind>:<slots>` | `wrongcommit:<slots>` | `wrongside:<slots>`
-    | `shortr` | `shortxr` -/
+    | `shortr` | `shortxr` | `adaptive:g_r`   (`adaptive:enc_x_r|enc_r|label|Q` are answered `skip:<why no such attack exists>`) -/
 def strategy? (s : String) : Option Strategy :=
   match s.splitOn ":" with
   | ["plain"] => some .plain
@@ -32,6 +32,7 @@ def strategy? (s : String) : Option Strategy :=
   | ["wrongside", l] => do pure (.wrongSide (← natList? l))
   | ["shortr"] => some .shortR
   | ["shortxr"] => some .shortXR
+  | ["adaptive", "g_r"] => some .adaptiveGR
   | _ => none
 
 /-- `venc prove <curve k|e> <x> <keyid> <n> <label> <param|none> <tape>` → `ok:<proof bytes>:<tape used>` | `err:<name>` | `panic`
@@ -75,6 +76,12 @@ def handle (O : Query → IO Bytes) : List String → IO (Option String)
           | .err e => pure (some ("err:" ++ e.name))
           | .panic _ => pure (some "panic")
       | _, _ => pure none
+  | ["adv", _, _, _, _, _, _, "adaptive:enc_x_r", _] | ["adv", _, _, _, _, _, _, "adaptive:enc_r", _] =>
+      pure (some "skip:no adaptive attack — g_r and the other ciphertext stay hashed, so the opened side must be fixed in advance; garbage in the unhashed unopened ciphertext leaves the slots of the other bit value decryptable")
+  | ["adv", _, _, _, _, _, _, "adaptive:label", _] =>
+      pure (some "skip:no adaptive attack — the label also keys every ciphertext (m*L mod n) and the ciphertexts are hashed")
+  | ["adv", _, _, _, _, _, _, "adaptive:Q", _] =>
+      pure (some "skip:no adaptive attack — a slot opened on the x+r side forces Q = s*G - g_r with g_r and Enc(s) hashed")
   | ["adv", c, x, key, n, label, nslots, st, tape] => do
       match curve? c, parseHexNat? x, hexToBytes? key, parseHexNat? n, hexToBytes? label, nslots.toNat?, strategy? st, hexToBytes? tape with
       | some cp, some x, some key, some n, some label, some nslots, some st, some tape =>
